@@ -15,4 +15,5 @@ CONSTANTS
   GenHist = TRUE
 INVARIANT CexFinal
 INVARIANT FinalConsistent
+VIEW View
 CHECK_DEADLOCK FALSE
